@@ -33,11 +33,11 @@ TECHNIQUE = {
     "C06": "path-sensitive forward dataflow over sets of worlds (finite powerset domain) for the conditional / loop / block handlers of all four passes; guarded-operation, ownership and work-list rules on the CFG of the merge pass (splice orientation, pop guards, one consuming end, no early exit)",
     "C07": "static def-use flow analysis of the rewriting passes: freshness and id/statement pairing, guard/dependency propagation, append-order vs. recursion, mapper arity protocol, component carry-over; case table of the statement wrapper by abstract interpretation over terms",
     "C08": "static provenance analysis comparing interpreter accesses with declared read/write sets over the real C3 MRO",
-    "C09": "static total-return analysis of the kind mapper and table agreement across the built-in registries",
-    "C10": "static loop-scope, call-order and pairing analysis of the verifier passes against the consumers' lookup tables",
+    "C09": "static total-return analysis of the kind mapper, must-pass-through of the one-result test along return chains, table agreement across the built-in registries",
+    "C10": "static loop-scope, call-order and pairing analysis of the verifier passes against the consumers' lookup tables; call-graph reachability of raise statements from the passes",
     "C11": "static post-dominance (incl. exceptional exits) and except-clause audit on the call paths from user-function call sites",
-    "C12": "static must-pass-through / emit-order analysis of the Fortran generator's release and allocation discipline",
-    "C13": "static constant evaluation of identifier alphabets and prefixes, memo/dispatch shape, case and length normalisation on the name path",
+    "C12": "static must-pass-through / emit-order analysis of the Fortran generator's release and allocation discipline; dispatcher-name exhaustiveness of the type visitors; template audit for non-short-circuit association tests",
+    "C13": "static constant evaluation of identifier alphabets and prefixes, memo/dispatch shape, case and length normalisation on the name path; who-may-remove rule on the name generators",
     "C14": "finite-domain abstract interpretation of unify() (exhaustive over the abstract kind universe) plus CFG pairing rules on the table update",
     "C15": "static set-typedness inference x order-sensitive sink taint analysis over the call graph of both generators",
     "C16": "case table of fuse_two_phases by abstract interpretation over uninterpreted terms; static def-use flow and field-coverage analysis of fusion and map_expressions",
